@@ -288,6 +288,17 @@ fn language_job(ctx: &Ctx, job: usize, iters: u64) -> Stats {
             format!("[{}{}] {} {}", ops.join(", "), trailing(&mut rng, len), cs, rng.pick(&consts))
         };
         check_text(&mut st, &text);
+        // counting comparisons whose operands contain a fixed-point variable (the iterate must be
+        // counted on both sides); non-convergent ones are skipped by the reference
+        if rng.chance(1, 6) {
+            let pool = ["Z", "a", "b", "Z & a", "Z | b", "true", "c"];
+            let l: Vec<&str> = (0..rng.usize(3)).map(|_| *rng.pick(&pool)).collect();
+            let r: Vec<&str> = (0..(1 + rng.usize(2))).map(|_| *rng.pick(&pool)).collect();
+            let (cs2, _) = *rng.pick(&cmps);
+            let fixed = format!("{} Z # {}[{}] {} [{}]", rng.pick_str(&["lfp", "gfp", "mu", "nu"]), rng.pick_str(&["", "a | ", "b & ", "Z | "]), l.join(", "), cs2, r.join(", "));
+            st.bump("counting_inside_fixed_points");
+            check_text(&mut st, &fixed);
+        }
     }
     st
 }
@@ -302,7 +313,7 @@ fn check_text(st: &mut Stats, text: &str) {
     };
     let Ok((names, want)) = crate::refsem::eval_formula(&ast) else { return };
     let huge = matches!(&ast, refsyn::Ast::CountConst(_, _, n) if *n >= (1u64 << 63));
-    util::budget(50_000_000, 1000);
+    util::budget(50_000_000, 2000);
     let r = guarded(|| ParsedFormula::new(&mut BufReader::new(text.as_bytes()), None).map(|pf| pf.eval()));
     match r {
         Ok(Ok(d)) => match crate::conv::tt_of_named(&d, &names) {
@@ -329,6 +340,8 @@ fn check_text(st: &mut Stats, text: &str) {
                 st.violate("c05.language", "C05:language:rejected".into(), format!("`{}` rejected: {}", text, e), case);
             }
         }
+        Err(crate::util::Caught::Budget("steps")) => st.bump("step_budget_exceeded(inconclusive case)"),
+        Err(crate::util::Caught::Budget(_)) => st.violate("c05.language", "C05:language:fixed-point-does-not-converge".into(), format!("`{}`: the reference converges, the engine exceeded 2000 fixed-point iterations", text), case),
         Err(c) => st.violate("c05.panic", format!("C05:language:{}", c.signature()), format!("`{}`: {:?}", text, c), case),
     }
 }
